@@ -176,6 +176,17 @@ class PyEnv(object):
         ex.mem.store(a + hdr + kind * n, 0, kind)
         return a
 
+    def read_unicode(self, addr):
+        """(kind, [code points]) of a str object, read back from its memory"""
+        i = self.info(addr)
+        ex = self.ex
+        n = simp(ex.mem.load(addr + 16, 8))
+        if not is_c(n):
+            raise Unsupported('str object with symbolic length')
+        kind = i['ukind']
+        hdr = 40 if i['ascii'] else 56
+        return kind, [ex.mem.load(addr + hdr + kind * k, kind) for k in range(n)]
+
     # ---- exceptions -------------------------------------------------------------
     def set_exc(self, exc_obj_addr, why=''):
         name = self.exc_name(exc_obj_addr)
@@ -579,6 +590,66 @@ def PyObject_Free(ex, o):
     return None
 
 
+def PyUnicode_FromKindAndData(ex, kind, buf, size):
+    """new str whose code points are the `size` units of `kind` bytes at buf (CPython chooses the
+    narrowest storage; the value -- the code point sequence -- is what the model keeps)"""
+    kind = ex.concretize(kind, 32, 4, 'unicode kind')
+    size = ex.concretize(size, 64, 64, 'unicode size')
+    if llsym.signed(size, 64) < 0:
+        p = py(ex)
+        p.exc = 'PyExc_ValueError'
+        return 0
+    cps = [ex.mem.load(ex._add64(buf, kind * k), kind) for k in range(size)]
+    p = py(ex)
+    a = p.new_unicode(cps, (kind, 'latin1') if kind == 1 else kind)
+    p.created.append(('PyUnicode_FromKindAndData', a, cps))
+    return a
+
+
+def PyUnicode_New(ex, size, maxchar):
+    """uninitialised str of `size` code points with storage wide enough for maxchar"""
+    size = ex.concretize(size, 64, 64, 'unicode size')
+    maxchar = simp(maxchar)
+    if not is_c(maxchar):
+        raise Unsupported('PyUnicode_New with symbolic maxchar')
+    if maxchar < 128:
+        kind = (1, 'ascii')
+    elif maxchar < 256:
+        kind = (1, 'latin1')
+    elif maxchar < 65536:
+        kind = 2
+    else:
+        kind = 4
+    k = kind[0] if isinstance(kind, tuple) else kind
+    p = py(ex)
+    a = p.new_unicode([ex.fresh('uninit_char', 8 * k) for _ in range(size)], kind)
+    p.created.append(('PyUnicode_New', a, size))
+    return a
+
+
+def PyUnicode_AsUCS4(ex, u, buf, buflen, copy_null):
+    """copies the code points of u into buf as 4-byte units; needs buflen >= len (+1 with
+    copy_null) else SystemError and NULL; writes a terminating 0 only if copy_null"""
+    p = py(ex)
+    kind, cps = p.read_unicode(simp(u))
+    n = len(cps)
+    cn = ex.concretize(copy_null, 32, 4, 'copy_null')
+    need = n + (1 if cn else 0)
+    if ex.decide(llsym.slt(buflen, need, 64)):
+        p.exc = 'PyExc_SystemError'
+        p.exc_log.append((p.exc, 'PyUnicode_AsUCS4: string is longer than the buffer'))
+        return 0
+    for k, c in enumerate(cps):
+        ex.mem.store(ex._add64(buf, 4 * k), llsym.zext(c, 8 * kind, 32) if not is_c(c) else c, 4)
+    if cn:
+        ex.mem.store(ex._add64(buf, 4 * n), 0, 4)
+    return buf
+
+
+def PyUnicode_GetLength(ex, u):
+    return py(ex).ex.mem.load(simp(u) + 16, 8)
+
+
 SSIZE_MAX = (1 << 63) - 1
 
 
@@ -731,6 +802,8 @@ def PyObject_GC_UnTrack(ex, o):
 
 DEFAULT = {
     '@*': extern_global,
+    'PyUnicode_FromKindAndData': PyUnicode_FromKindAndData, 'PyUnicode_New': PyUnicode_New,
+    'PyUnicode_AsUCS4': PyUnicode_AsUCS4, 'PyUnicode_GetLength': PyUnicode_GetLength,
     'PySlice_Unpack': PySlice_Unpack, 'PySlice_AdjustIndices': PySlice_AdjustIndices,
     'PyObject_GetBuffer': PyObject_GetBuffer, 'PyBuffer_IsContiguous': PyBuffer_IsContiguous,
     'PyBuffer_Release': PyBuffer_Release, '_PyObject_GC_New': _PyObject_GC_New,
